@@ -456,7 +456,8 @@ def run(ctx, prj: Project):
     if evaluated == "ok":
         # the engine as a whole was decided by evaluation; the structural rules that remain are the ones evaluation
         # does not cover: termination guards (R2) and predicate equality/hash coherence (R3)
-        rule_R2(ctx, prj)
+        ctx.complement("R2", lambda: rule_R2(ctx, prj), True, demote=True,
+                       by="the evaluated engine (R7), which terminated on every pattern of the family, also those whose automata contain epsilon cycles")
         rule_R3(ctx, prj)
         if ctx.tier != "thorough":
             # cheap complement: the full depth-3 family through the symbolic fragments, when the operators are written in
